@@ -14,7 +14,7 @@ CLAIMED = {
              '3GPP TS 23.038 tables. The model is tied to codec.py by a differential run (vm_compute inside Coq) on single code points, '
              'alphabet pairs, every octet in both decoder states and random strings.',
         note='Trusted: Coq kernel + vm_compute, translator (table literals), Spec/Gsm0338.v transcription, CPython str/bytes/struct '
-             'semantics as modelled, correspondence sampling (model = code is checked on generated inputs, not proved). No axioms.',
+             'semantics as modelled, correspondence sampling (model = code is checked on generated inputs, not proved). Since fix 9b35d23 an escape followed by ANY code without extension entry - octets above 0x7F and the escape code itself - yields one placeholder (the forced hypothesis x <> ESCAPE is gone; the oracle judges repeated escapes). No axioms.',
         technique='Coq proof by list induction + vm_compute table facts over translator-generated tables; differential correspondence',
         design='6 (C10)'),
     'C11': dict(
@@ -63,7 +63,7 @@ CLAIMED = {
              'unknown name:value tokens are kept as strings under the lower-cased name; a non-receipt parses to {}. Model tied to protocol.py by '
              'differential runs on built receipts (re-cased names, TLV present/absent, extra tokens), non-receipt esm_class values, a malformed '
              'stream and ambiguous date strings (exception classes compared).',
-        note='Trusted: Coq kernel + vm_compute sweeps, CPython str/int/strptime semantics as modelled (sampled), ASCII field names, harness. No axioms.',
+        note='Trusted: Coq kernel + vm_compute sweeps, CPython str/int/strptime semantics as modelled (sampled), ASCII field names, harness. Since fix e2a3177 a text that is refused is refused at every call (the harness parses each malformed text twice). No axioms.',
         technique='Coq proof (scanner lemmas over list append, finite sweeps for number/date fields); differential correspondence',
         design='6 (C20)'),
     'C08': dict(
@@ -93,7 +93,7 @@ CLAIMED = {
              'tie are skipped and counted); The sender-level '
              'statement is checked on whole sessions (real limiter + real throttle handler on a virtual-time loop: wire-level rate bound, denial condition evaluated '
              'at every submit_sm write) and on traces of the real sender, not proved. Proved for the code after fixes b4cec97, dd102c0, a0e77b7 (throttle handler '
-             'asked before the wait in the rate limiter), ac3f46b (ZeroDivisionError on equal clock readings; the theorems now hold for non-decreasing clocks). Stated limit: a throttled response handled while the application\'s sending hook is suspended (between allow_request and the write) is not taken into account. No axioms.',
+             'asked before the wait in the rate limiter), ac3f46b (ZeroDivisionError on equal clock readings; the theorems now hold for non-decreasing clocks). Stated limit: a throttled response handled while the application\'s sending hook is suspended (between allow_request and the write) is not taken into account. Since fix 2041393 the throttle decision is taken on the exact share (throttled*100 > deny_request_at*total); model, C18_throttle_decision and the oracle are exact (the two-decimal rounding only reaches the log). No axioms.',
         technique='Coq proof: potential/supply argument by induction over clock readings (Q, lra/nra), liveness by state-invariance of failed readings; scripted-clock correspondence',
         design='6 (C18)'),
     'C14': dict(
@@ -157,7 +157,7 @@ CLAIMED = {
         note='Trusted: Coq kernel, translator (enums, TLV tables), harness + pdugen.py. Outside the submit_sm theorem: messages with the UDHI bit '
              '(C08/C09), non-strict error handlers, stdlib codecs, the packed GSM codec as a default (C11). Domain exclusion: a GSM alphabet named '
              'explicitly under a different session default has no data_coding of its own in SMPP 3.4. Proved for the code after fixes acc3db3, '
-             '77053b5, d468104, 5ac7354. No axioms.',
+             '77053b5, d468104, 5ac7354. Since fixes 6c5706e and 1ffc4ee the round trip covers Octet String parameters with any octets and messages with an empty text. No axioms.',
         technique='Coq proof: positional parser lemmas (skipn cursor), induction over the optional-parameter list, refinement through the specification layout; differential correspondence on generated PDUs incl. malformed stream',
         design='6 (C03)'),
     'C04': dict(
@@ -175,7 +175,7 @@ CLAIMED = {
              'compared octet by octet with the independent encoder.',
         note='Trusted: Coq kernel, Spec/Smpp34.v and smppref.py as transcriptions of the standard, translator, harness. The time strings of a foreign PDU enter '
              'C04_sm_decode through smpp_to_time (C17); User Data Headers with any information elements before / after the concatenation element, or none, are covered (C04_udh_any_order). Proved '
-             'for the code after fixes 7dca4fc, d468104, 0c64b68 (bind response without body), 5ac7354 (final zero octet of Octet String TLVs), 9e89d20 (UDH read as if the concatenation element came first). No axioms.',
+             'for the code after fixes 7dca4fc, d468104, 0c64b68 (bind response without body), 5ac7354 (final zero octet of Octet String TLVs), 9e89d20 (UDH read as if the concatenation element came first). Since fixes 6c5706e and 1ffc4ee Octet String parameters carry any octets (C04_octet_string_tlv for all octets 0..255) and a message with an empty text decodes (C04_foreign_sm without the non-empty hypothesis); foreign PDUs with binary octet strings and empty texts are generated. No axioms.',
         technique='Coq proof: refinement of the model encoder to an independent specification layout + table sweeps; differential check against an independent reference encoder/decoder',
         design='6 (C04)'),
     'C12': dict(
